@@ -81,7 +81,7 @@ func c05Bases(tier string) int {
 	if tier == "thorough" {
 		return 40
 	}
-	return 4
+	return 6
 }
 
 func (p c05) slots() int { return (len(conflictEdits)*c05PairSlots + 1) * c05PermSlots }
